@@ -1,5 +1,8 @@
 import TpmModel.Ser
+import TpmModel.ValParse
+import TpmModel.Spec
 import TpmModel.Generated.Cmd
+import TpmModel.Pinned.Cmd
 /-! Line-protocol driver: one operation per input line, canonical observation lines + `END` per operation. -/
 
 def findType (n : String) : Option Ty := (Generated.typeByName.find? (·.1 == n)).map (·.2)
@@ -18,6 +21,22 @@ def handle (line : String) : List String :=
     | some top, some bs => (marshalRun (mode == "S") Generated.msgTables top bs).lines (mode == "S")
     | none, _ => ["X unknown-type " ++ ty]
     | _, none => ["X bad-hex"]
+  | ["SPECP", ty, sel, vs] =>
+    match (Pinned.typeByName.find? (·.1 == ty)).map (·.2), parseValStr vs with
+    | some t, some v =>
+      match spec t rootPath (if sel == "-" then none else sel.toInt?) v with
+      | none => ["X nonconforming"]
+      | some (bs, evs) => ("B " ++ (if bs.isEmpty then "-" else hexOfBytes bs)) :: evs.map fun (o, e) => s!"E {o} {e.str}"
+    | none, _ => ["X unknown-type " ++ ty]
+    | _, none => ["X bad-val"]
+  | ["SPEC", ty, sel, vs] =>
+    match findType ty, parseValStr vs with
+    | some t, some v =>
+      match spec t rootPath (if sel == "-" then none else sel.toInt?) v with
+      | none => ["X nonconforming"]
+      | some (bs, evs) => ("B " ++ (if bs.isEmpty then "-" else hexOfBytes bs)) :: evs.map fun (o, e) => s!"E {o} {e.str}"
+    | none, _ => ["X unknown-type " ++ ty]
+    | _, none => ["X bad-val"]
   | _ => ["X bad-op"]
 
 partial def loop (h : IO.FS.Stream) (out : IO.FS.Stream) : IO Unit := do
